@@ -102,6 +102,10 @@ def gen() -> None:
     if "return None" not in ast.unparse(t_auth.handlers[0].body):
         raise px.Unsupported("Authorization.from_header: handler no longer returns None")
     t_date = _single_try(px.find_def(http, "parse_date"), "parse_date", "parsedate_to_datetime")
+    pd_body = [x for x in px.find_def(http, "parse_date").body if not (isinstance(x, ast.Expr) and isinstance(x.value, ast.Constant))]
+    tail = [ast.unparse(x) for x in pd_body[pd_body.index(t_date) + 1:]] if t_date in pd_body else None
+    if tail != ["if dt.tzinfo is None:\n    return dt.replace(tzinfo=timezone.utc)", "return dt"]:
+        raise px.Unsupported(f"parse_date: code after the try block changed (it runs outside the except clause): {tail}")
     pa = px.find_def(http, "parse_age")
     t_age_int = _single_try(pa, "parse_age", "int(value)")
     t_age_td = _single_try(pa, "parse_age", "timedelta(")
@@ -316,6 +320,7 @@ def boundary_cases(rng, fz, counts=COUNTS) -> list[str]:
     # percent escapes at the edges of the hex class, in RFC 2231 values and as plain text
     for e in HEXE:
         out += [f"a; k*=utf-8''{e}", f"a; k*=us-ascii''x{e}y", f"a; k*=iso-8859-1''{e}{e}", f'a; k*="{e}"', f"k*=utf-8''{e}, j={e}", f"a; k*0*=utf-8''{e}; k*1*={e}"]
+    out += date_boundaries() + backtracking_shapes()
     # numbers: long digit runs and the limits of every numeric field
     for nn in ["0", "1", "65535", "65536", "86399999999999", "86400000000000", "9" * 18, "9" * 19, "9" * 20, "1" * 4299, "1" * 4300, "1" * 4301, "0" * 4301, "-" + "1" * 4300, "1" * 10000]:
         out += [nn, f" {nn} ", f"max-age={nn}", f"a;q={nn}", f"x:{nn}"]
@@ -328,6 +333,38 @@ def boundary_cases(rng, fz, counts=COUNTS) -> list[str]:
                 "a" + "".join(f"; p{i}=v" for i in range(c)), ", ".join(f"d{i}={i}" for i in range(c)), "bytes=" + ",".join(f"{2 * i}-{2 * i}" for i in range(c)),
                 "a" * c, "a" * (c * 10), '"' * c, "\\" * c, ";" * c, "," * c, "=" * c, "*" * c, " " * c + "x", "x" + "\xa0" * c,
                 "text/html;q=0." + "5" * min(c, 300), ",".join("text/html;q=0.5" for _ in range(c)), "a;k*=utf-8''" + "%C3%A9" * c, "Basic " + "QUJD" * c, "Basic " + "=" * c]
+    return out
+
+
+def date_boundaries() -> list[str]:
+    """dates at the edges of the calendar datetime can hold, with every kind of zone."""
+    out = []
+    zones = ["-2359", "-1200", "-0100", "-0001", "-0000", "+0000", "+0001", "+0100", "+1200", "+2359", "+2400", "-2400", "GMT", "UT", "Z", "EST", "EDT", "PST", "PDT", "CST", "MST",
+             "A", "M", "N", "Y", ""]
+    for y in ("0001", "0002", "1000", "1969", "1970", "2038", "9998", "9999"):
+        for dm, wd in (("01 Jan", "Mon"), ("31 Dec", "Fri"), ("29 Feb", "Tue")):
+            for tm in ("00:00:00", "23:59:59"):
+                if y in ("0001", "9999") or tm == "00:00:00" and dm == "01 Jan":
+                    for z in zones:
+                        out.append(f"{wd}, {dm} {y} {tm} {z}".strip())
+    out += ["Fri, 31 Dec 9999 23:59:59 -0100", "Mon, 01 Jan 0001 00:00:00 +0100", "31 Dec 9999 23:59:60 -0001", "1 Jan 1 00:00:00 +0001", "1 Jan 01 00:00 +0001", "Sat, 01-Jan-0001 00:00:00 +2359",
+            "Friday, 31-Dec-99 23:59:59 EST", "Fri Dec 31 23:59:59 9999", "Mon Jan  1 00:00:00 0001"]
+    return out
+
+
+def backtracking_shapes() -> list[str]:
+    """adversarial-for-backtracking texts for every regex-driven scanner: an opening quote followed by escapes and never
+    closed, and long runs of the characters the alternations of each pattern overlap on."""
+    out = []
+    for k in (30, 40, 64, 80):
+        bs, esc, ws = "\\" * k, '\\"' * k, " " * k
+        out += [f'session="{bs}', f'session="{esc}', f'a=b; session="{bs}x', f'session="{bs}; b=c', f'session = "{esc}\\', f'k="{"a" * k}{bs}',
+                f'a; k="{bs}', f'a; k="{esc}', f'a; k="{bs}; j=1', f'form-data; name="{esc}x', f'k="{bs}, j="{esc}', f'"{bs}', f'"{esc}, "x',
+                f'"{"a" * k}', f'W/"{"a" * k}', f'"a"{ws}', f'"a"{ws},{ws}"b{ws}', f'W/"{"," * k}', '"' * k, '","' * k, 'W/' * k, f'{ws},{ws}' * 8,
+                f'a{ws}={ws}"{bs}', f"{'=' * k};{'=' * k}", f"{';' * k}=", f"a{ws}", f"{ws}={ws};{ws}" * 6, f"k{'*' * k}=x", f"a; k{'*' * k}=x", f"a; k*{'0' * k}=x", f"a; k*0*{'=' * k}",
+                f"a; k*=utf-8{chr(39) * k}x", f"a; k*={chr(39) * k}", f"a;q={'0' * k}.{'0' * k}", f"a;q=0.{'0' * k}x", f"a;q=-{'.' * k}", f"text/html{';q=1' * k}", f"a/{'/' * k}b",
+                f"bytes={'-' * k}", f"bytes={'0-' * k}", f"bytes={' ' * k}-{' ' * k}1", f"bytes=1{' ' * k}-", f"{'=' * k}", f"Basic {'=' * k}Q", f"Basic {'Q=' * k}",
+                f"Mon, {'0' * k} Jan 2026", f"{', ' * k}2026", f"1 Jan 2026 {':' * k}", f"1 Jan 2026 00:00:00 +{'0' * k}", f"1 Jan 2026 00:00:00 {'(' * k}", f"({'(' * k}) 1 Jan 2026", f"1 Jan {'(' * k}2026"]
     return out
 
 
@@ -412,7 +449,7 @@ def run(chk: Check) -> None:
             out = "timeout"
             hung[name] = hung.get(name, 0) + 1
             if in_domain:
-                chk.fail(f"{name}:timeout", f"{name} did not return within 3 s", {"parser": name, "input": arg})
+                chk.fail("non-termination", f"{name} did not return within 3 s", {"parser": name, "input": arg})
         except HTTPException as e:
             out = f"err:HTTP{e.code}"
         except Exception as e:  # noqa: BLE001
@@ -665,6 +702,13 @@ def run(chk: Check) -> None:
     for k, pick in (("HTTP_COOKIE", lambda x: x.startswith(("a=", "sid=", "k=", "first=", "b="))), ("HTTP_RANGE", lambda x: x.startswith(("bytes=", "items ="))),
                     ("HTTP_IF_RANGE", lambda x: x.startswith("bytes=")), ("CONTENT_TYPE", lambda x: x.startswith("a; k*"))):
         env_cases += [({k: v}, "GET") for v in bcs if pick(v) and len(v) < 200][:(120 if quick else 400)]
+    dbs, bts = date_boundaries(), backtracking_shapes()
+    for hname in ("HTTP_DATE", "HTTP_IF_MODIFIED_SINCE", "HTTP_IF_UNMODIFIED_SINCE", "HTTP_IF_RANGE"):
+        env_cases += [({hname: v}, "GET") for v in (dbs if not quick else dbs[::3] + dbs[-9:])]
+    for hname, pick in (("HTTP_COOKIE", ("session", "a=b", "k=", "a ")), ("CONTENT_TYPE", ("a; k", "form-data", "text/html;")), ("HTTP_IF_NONE_MATCH", ('"', "W/")),
+                        ("HTTP_ACCEPT", ("a;q", "text/html", "a/")), ("HTTP_RANGE", ("bytes=",)), ("HTTP_AUTHORIZATION", ("Basic ",)), ("HTTP_IF_RANGE", ('"', "W/", "1 Jan", "Mon,")),
+                        ("HTTP_CACHE_CONTROL", ("k=", "a "))):
+        env_cases += [({hname: v}, "GET") for v in bts if v.startswith(pick)][:(60 if quick else 400)]
     for _ in range(n):
         over = {}
         for _ in range(rng.choice([1, 1, 1, 2, 3])):
